@@ -30,28 +30,28 @@ Record ast := mkAst { x_pc : pctag; x_cs : sst; x_ss : sst; x_m : mstate;
                       x_up : bool; x_ab : bool; x_rqe : bool; x_rqf : bool; x_rsf : bool;
                       x_live : bool; x_rs : bool; x_rq : bool;
                       x_qb : bool (* request_body_buf not empty *); x_pb : bool (* response_body_buf not empty *);
-                      x_tun : bool; x_cr : bool; x_ve : bool; x_vg : bool }.
+                      x_tun : bool; x_cr : bool; x_ve : bool; x_ws : bool }.
 Definition abs (s : stream) : ast :=
   mkAst (tag_of (pc s)) (cs s) (ss s) (msum s) (upstream s) (aborted s) (reqerr_h s) (req_fin s) (resp_fin s)
-        (live s) (req_stream s) (is_some (req s)) (negb (isnil (reqbuf s))) (negb (isnil (respbuf s))) (tunnel s) (crashed s) (venv s) (vgap s).
-Definition sx_pc (v : pctag) (s : ast) : ast := {| x_pc := v; x_cs := x_cs s; x_ss := x_ss s; x_m := x_m s; x_up := x_up s; x_ab := x_ab s; x_rqe := x_rqe s; x_rqf := x_rqf s; x_rsf := x_rsf s; x_live := x_live s; x_rs := x_rs s; x_rq := x_rq s; x_qb := x_qb s; x_pb := x_pb s; x_tun := x_tun s; x_cr := x_cr s; x_ve := x_ve s; x_vg := x_vg s |}.
-Definition sx_cs (v : sst) (s : ast) : ast := {| x_pc := x_pc s; x_cs := v; x_ss := x_ss s; x_m := x_m s; x_up := x_up s; x_ab := x_ab s; x_rqe := x_rqe s; x_rqf := x_rqf s; x_rsf := x_rsf s; x_live := x_live s; x_rs := x_rs s; x_rq := x_rq s; x_qb := x_qb s; x_pb := x_pb s; x_tun := x_tun s; x_cr := x_cr s; x_ve := x_ve s; x_vg := x_vg s |}.
-Definition sx_ss (v : sst) (s : ast) : ast := {| x_pc := x_pc s; x_cs := x_cs s; x_ss := v; x_m := x_m s; x_up := x_up s; x_ab := x_ab s; x_rqe := x_rqe s; x_rqf := x_rqf s; x_rsf := x_rsf s; x_live := x_live s; x_rs := x_rs s; x_rq := x_rq s; x_qb := x_qb s; x_pb := x_pb s; x_tun := x_tun s; x_cr := x_cr s; x_ve := x_ve s; x_vg := x_vg s |}.
-Definition sx_m (v : mstate) (s : ast) : ast := {| x_pc := x_pc s; x_cs := x_cs s; x_ss := x_ss s; x_m := v; x_up := x_up s; x_ab := x_ab s; x_rqe := x_rqe s; x_rqf := x_rqf s; x_rsf := x_rsf s; x_live := x_live s; x_rs := x_rs s; x_rq := x_rq s; x_qb := x_qb s; x_pb := x_pb s; x_tun := x_tun s; x_cr := x_cr s; x_ve := x_ve s; x_vg := x_vg s |}.
-Definition sx_up (v : bool) (s : ast) : ast := {| x_pc := x_pc s; x_cs := x_cs s; x_ss := x_ss s; x_m := x_m s; x_up := v; x_ab := x_ab s; x_rqe := x_rqe s; x_rqf := x_rqf s; x_rsf := x_rsf s; x_live := x_live s; x_rs := x_rs s; x_rq := x_rq s; x_qb := x_qb s; x_pb := x_pb s; x_tun := x_tun s; x_cr := x_cr s; x_ve := x_ve s; x_vg := x_vg s |}.
-Definition sx_ab (v : bool) (s : ast) : ast := {| x_pc := x_pc s; x_cs := x_cs s; x_ss := x_ss s; x_m := x_m s; x_up := x_up s; x_ab := v; x_rqe := x_rqe s; x_rqf := x_rqf s; x_rsf := x_rsf s; x_live := x_live s; x_rs := x_rs s; x_rq := x_rq s; x_qb := x_qb s; x_pb := x_pb s; x_tun := x_tun s; x_cr := x_cr s; x_ve := x_ve s; x_vg := x_vg s |}.
-Definition sx_rqe (v : bool) (s : ast) : ast := {| x_pc := x_pc s; x_cs := x_cs s; x_ss := x_ss s; x_m := x_m s; x_up := x_up s; x_ab := x_ab s; x_rqe := v; x_rqf := x_rqf s; x_rsf := x_rsf s; x_live := x_live s; x_rs := x_rs s; x_rq := x_rq s; x_qb := x_qb s; x_pb := x_pb s; x_tun := x_tun s; x_cr := x_cr s; x_ve := x_ve s; x_vg := x_vg s |}.
-Definition sx_rqf (v : bool) (s : ast) : ast := {| x_pc := x_pc s; x_cs := x_cs s; x_ss := x_ss s; x_m := x_m s; x_up := x_up s; x_ab := x_ab s; x_rqe := x_rqe s; x_rqf := v; x_rsf := x_rsf s; x_live := x_live s; x_rs := x_rs s; x_rq := x_rq s; x_qb := x_qb s; x_pb := x_pb s; x_tun := x_tun s; x_cr := x_cr s; x_ve := x_ve s; x_vg := x_vg s |}.
-Definition sx_rsf (v : bool) (s : ast) : ast := {| x_pc := x_pc s; x_cs := x_cs s; x_ss := x_ss s; x_m := x_m s; x_up := x_up s; x_ab := x_ab s; x_rqe := x_rqe s; x_rqf := x_rqf s; x_rsf := v; x_live := x_live s; x_rs := x_rs s; x_rq := x_rq s; x_qb := x_qb s; x_pb := x_pb s; x_tun := x_tun s; x_cr := x_cr s; x_ve := x_ve s; x_vg := x_vg s |}.
-Definition sx_live (v : bool) (s : ast) : ast := {| x_pc := x_pc s; x_cs := x_cs s; x_ss := x_ss s; x_m := x_m s; x_up := x_up s; x_ab := x_ab s; x_rqe := x_rqe s; x_rqf := x_rqf s; x_rsf := x_rsf s; x_live := v; x_rs := x_rs s; x_rq := x_rq s; x_qb := x_qb s; x_pb := x_pb s; x_tun := x_tun s; x_cr := x_cr s; x_ve := x_ve s; x_vg := x_vg s |}.
-Definition sx_rs (v : bool) (s : ast) : ast := {| x_pc := x_pc s; x_cs := x_cs s; x_ss := x_ss s; x_m := x_m s; x_up := x_up s; x_ab := x_ab s; x_rqe := x_rqe s; x_rqf := x_rqf s; x_rsf := x_rsf s; x_live := x_live s; x_rs := v; x_rq := x_rq s; x_qb := x_qb s; x_pb := x_pb s; x_tun := x_tun s; x_cr := x_cr s; x_ve := x_ve s; x_vg := x_vg s |}.
-Definition sx_rq (v : bool) (s : ast) : ast := {| x_pc := x_pc s; x_cs := x_cs s; x_ss := x_ss s; x_m := x_m s; x_up := x_up s; x_ab := x_ab s; x_rqe := x_rqe s; x_rqf := x_rqf s; x_rsf := x_rsf s; x_live := x_live s; x_rs := x_rs s; x_rq := v; x_qb := x_qb s; x_pb := x_pb s; x_tun := x_tun s; x_cr := x_cr s; x_ve := x_ve s; x_vg := x_vg s |}.
-Definition sx_qb (v : bool) (s : ast) : ast := {| x_pc := x_pc s; x_cs := x_cs s; x_ss := x_ss s; x_m := x_m s; x_up := x_up s; x_ab := x_ab s; x_rqe := x_rqe s; x_rqf := x_rqf s; x_rsf := x_rsf s; x_live := x_live s; x_rs := x_rs s; x_rq := x_rq s; x_qb := v; x_pb := x_pb s; x_tun := x_tun s; x_cr := x_cr s; x_ve := x_ve s; x_vg := x_vg s |}.
-Definition sx_pb (v : bool) (s : ast) : ast := {| x_pc := x_pc s; x_cs := x_cs s; x_ss := x_ss s; x_m := x_m s; x_up := x_up s; x_ab := x_ab s; x_rqe := x_rqe s; x_rqf := x_rqf s; x_rsf := x_rsf s; x_live := x_live s; x_rs := x_rs s; x_rq := x_rq s; x_qb := x_qb s; x_pb := v; x_tun := x_tun s; x_cr := x_cr s; x_ve := x_ve s; x_vg := x_vg s |}.
-Definition sx_tun (v : bool) (s : ast) : ast := {| x_pc := x_pc s; x_cs := x_cs s; x_ss := x_ss s; x_m := x_m s; x_up := x_up s; x_ab := x_ab s; x_rqe := x_rqe s; x_rqf := x_rqf s; x_rsf := x_rsf s; x_live := x_live s; x_rs := x_rs s; x_rq := x_rq s; x_qb := x_qb s; x_pb := x_pb s; x_tun := v; x_cr := x_cr s; x_ve := x_ve s; x_vg := x_vg s |}.
-Definition sx_cr (v : bool) (s : ast) : ast := {| x_pc := x_pc s; x_cs := x_cs s; x_ss := x_ss s; x_m := x_m s; x_up := x_up s; x_ab := x_ab s; x_rqe := x_rqe s; x_rqf := x_rqf s; x_rsf := x_rsf s; x_live := x_live s; x_rs := x_rs s; x_rq := x_rq s; x_qb := x_qb s; x_pb := x_pb s; x_tun := x_tun s; x_cr := v; x_ve := x_ve s; x_vg := x_vg s |}.
-Definition sx_ve (v : bool) (s : ast) : ast := {| x_pc := x_pc s; x_cs := x_cs s; x_ss := x_ss s; x_m := x_m s; x_up := x_up s; x_ab := x_ab s; x_rqe := x_rqe s; x_rqf := x_rqf s; x_rsf := x_rsf s; x_live := x_live s; x_rs := x_rs s; x_rq := x_rq s; x_qb := x_qb s; x_pb := x_pb s; x_tun := x_tun s; x_cr := x_cr s; x_ve := v; x_vg := x_vg s |}.
-Definition sx_vg (v : bool) (s : ast) : ast := {| x_pc := x_pc s; x_cs := x_cs s; x_ss := x_ss s; x_m := x_m s; x_up := x_up s; x_ab := x_ab s; x_rqe := x_rqe s; x_rqf := x_rqf s; x_rsf := x_rsf s; x_live := x_live s; x_rs := x_rs s; x_rq := x_rq s; x_qb := x_qb s; x_pb := x_pb s; x_tun := x_tun s; x_cr := x_cr s; x_ve := x_ve s; x_vg := v |}.
+        (live s) (req_stream s) (is_some (req s)) (negb (isnil (reqbuf s))) (negb (isnil (respbuf s))) (tunnel s) (crashed s) (venv s) (fws s).
+Definition sx_pc (v : pctag) (s : ast) : ast := {| x_pc := v; x_cs := x_cs s; x_ss := x_ss s; x_m := x_m s; x_up := x_up s; x_ab := x_ab s; x_rqe := x_rqe s; x_rqf := x_rqf s; x_rsf := x_rsf s; x_live := x_live s; x_rs := x_rs s; x_rq := x_rq s; x_qb := x_qb s; x_pb := x_pb s; x_tun := x_tun s; x_cr := x_cr s; x_ve := x_ve s; x_ws := x_ws s |}.
+Definition sx_cs (v : sst) (s : ast) : ast := {| x_pc := x_pc s; x_cs := v; x_ss := x_ss s; x_m := x_m s; x_up := x_up s; x_ab := x_ab s; x_rqe := x_rqe s; x_rqf := x_rqf s; x_rsf := x_rsf s; x_live := x_live s; x_rs := x_rs s; x_rq := x_rq s; x_qb := x_qb s; x_pb := x_pb s; x_tun := x_tun s; x_cr := x_cr s; x_ve := x_ve s; x_ws := x_ws s |}.
+Definition sx_ss (v : sst) (s : ast) : ast := {| x_pc := x_pc s; x_cs := x_cs s; x_ss := v; x_m := x_m s; x_up := x_up s; x_ab := x_ab s; x_rqe := x_rqe s; x_rqf := x_rqf s; x_rsf := x_rsf s; x_live := x_live s; x_rs := x_rs s; x_rq := x_rq s; x_qb := x_qb s; x_pb := x_pb s; x_tun := x_tun s; x_cr := x_cr s; x_ve := x_ve s; x_ws := x_ws s |}.
+Definition sx_m (v : mstate) (s : ast) : ast := {| x_pc := x_pc s; x_cs := x_cs s; x_ss := x_ss s; x_m := v; x_up := x_up s; x_ab := x_ab s; x_rqe := x_rqe s; x_rqf := x_rqf s; x_rsf := x_rsf s; x_live := x_live s; x_rs := x_rs s; x_rq := x_rq s; x_qb := x_qb s; x_pb := x_pb s; x_tun := x_tun s; x_cr := x_cr s; x_ve := x_ve s; x_ws := x_ws s |}.
+Definition sx_up (v : bool) (s : ast) : ast := {| x_pc := x_pc s; x_cs := x_cs s; x_ss := x_ss s; x_m := x_m s; x_up := v; x_ab := x_ab s; x_rqe := x_rqe s; x_rqf := x_rqf s; x_rsf := x_rsf s; x_live := x_live s; x_rs := x_rs s; x_rq := x_rq s; x_qb := x_qb s; x_pb := x_pb s; x_tun := x_tun s; x_cr := x_cr s; x_ve := x_ve s; x_ws := x_ws s |}.
+Definition sx_ab (v : bool) (s : ast) : ast := {| x_pc := x_pc s; x_cs := x_cs s; x_ss := x_ss s; x_m := x_m s; x_up := x_up s; x_ab := v; x_rqe := x_rqe s; x_rqf := x_rqf s; x_rsf := x_rsf s; x_live := x_live s; x_rs := x_rs s; x_rq := x_rq s; x_qb := x_qb s; x_pb := x_pb s; x_tun := x_tun s; x_cr := x_cr s; x_ve := x_ve s; x_ws := x_ws s |}.
+Definition sx_rqe (v : bool) (s : ast) : ast := {| x_pc := x_pc s; x_cs := x_cs s; x_ss := x_ss s; x_m := x_m s; x_up := x_up s; x_ab := x_ab s; x_rqe := v; x_rqf := x_rqf s; x_rsf := x_rsf s; x_live := x_live s; x_rs := x_rs s; x_rq := x_rq s; x_qb := x_qb s; x_pb := x_pb s; x_tun := x_tun s; x_cr := x_cr s; x_ve := x_ve s; x_ws := x_ws s |}.
+Definition sx_rqf (v : bool) (s : ast) : ast := {| x_pc := x_pc s; x_cs := x_cs s; x_ss := x_ss s; x_m := x_m s; x_up := x_up s; x_ab := x_ab s; x_rqe := x_rqe s; x_rqf := v; x_rsf := x_rsf s; x_live := x_live s; x_rs := x_rs s; x_rq := x_rq s; x_qb := x_qb s; x_pb := x_pb s; x_tun := x_tun s; x_cr := x_cr s; x_ve := x_ve s; x_ws := x_ws s |}.
+Definition sx_rsf (v : bool) (s : ast) : ast := {| x_pc := x_pc s; x_cs := x_cs s; x_ss := x_ss s; x_m := x_m s; x_up := x_up s; x_ab := x_ab s; x_rqe := x_rqe s; x_rqf := x_rqf s; x_rsf := v; x_live := x_live s; x_rs := x_rs s; x_rq := x_rq s; x_qb := x_qb s; x_pb := x_pb s; x_tun := x_tun s; x_cr := x_cr s; x_ve := x_ve s; x_ws := x_ws s |}.
+Definition sx_live (v : bool) (s : ast) : ast := {| x_pc := x_pc s; x_cs := x_cs s; x_ss := x_ss s; x_m := x_m s; x_up := x_up s; x_ab := x_ab s; x_rqe := x_rqe s; x_rqf := x_rqf s; x_rsf := x_rsf s; x_live := v; x_rs := x_rs s; x_rq := x_rq s; x_qb := x_qb s; x_pb := x_pb s; x_tun := x_tun s; x_cr := x_cr s; x_ve := x_ve s; x_ws := x_ws s |}.
+Definition sx_rs (v : bool) (s : ast) : ast := {| x_pc := x_pc s; x_cs := x_cs s; x_ss := x_ss s; x_m := x_m s; x_up := x_up s; x_ab := x_ab s; x_rqe := x_rqe s; x_rqf := x_rqf s; x_rsf := x_rsf s; x_live := x_live s; x_rs := v; x_rq := x_rq s; x_qb := x_qb s; x_pb := x_pb s; x_tun := x_tun s; x_cr := x_cr s; x_ve := x_ve s; x_ws := x_ws s |}.
+Definition sx_rq (v : bool) (s : ast) : ast := {| x_pc := x_pc s; x_cs := x_cs s; x_ss := x_ss s; x_m := x_m s; x_up := x_up s; x_ab := x_ab s; x_rqe := x_rqe s; x_rqf := x_rqf s; x_rsf := x_rsf s; x_live := x_live s; x_rs := x_rs s; x_rq := v; x_qb := x_qb s; x_pb := x_pb s; x_tun := x_tun s; x_cr := x_cr s; x_ve := x_ve s; x_ws := x_ws s |}.
+Definition sx_qb (v : bool) (s : ast) : ast := {| x_pc := x_pc s; x_cs := x_cs s; x_ss := x_ss s; x_m := x_m s; x_up := x_up s; x_ab := x_ab s; x_rqe := x_rqe s; x_rqf := x_rqf s; x_rsf := x_rsf s; x_live := x_live s; x_rs := x_rs s; x_rq := x_rq s; x_qb := v; x_pb := x_pb s; x_tun := x_tun s; x_cr := x_cr s; x_ve := x_ve s; x_ws := x_ws s |}.
+Definition sx_pb (v : bool) (s : ast) : ast := {| x_pc := x_pc s; x_cs := x_cs s; x_ss := x_ss s; x_m := x_m s; x_up := x_up s; x_ab := x_ab s; x_rqe := x_rqe s; x_rqf := x_rqf s; x_rsf := x_rsf s; x_live := x_live s; x_rs := x_rs s; x_rq := x_rq s; x_qb := x_qb s; x_pb := v; x_tun := x_tun s; x_cr := x_cr s; x_ve := x_ve s; x_ws := x_ws s |}.
+Definition sx_tun (v : bool) (s : ast) : ast := {| x_pc := x_pc s; x_cs := x_cs s; x_ss := x_ss s; x_m := x_m s; x_up := x_up s; x_ab := x_ab s; x_rqe := x_rqe s; x_rqf := x_rqf s; x_rsf := x_rsf s; x_live := x_live s; x_rs := x_rs s; x_rq := x_rq s; x_qb := x_qb s; x_pb := x_pb s; x_tun := v; x_cr := x_cr s; x_ve := x_ve s; x_ws := x_ws s |}.
+Definition sx_cr (v : bool) (s : ast) : ast := {| x_pc := x_pc s; x_cs := x_cs s; x_ss := x_ss s; x_m := x_m s; x_up := x_up s; x_ab := x_ab s; x_rqe := x_rqe s; x_rqf := x_rqf s; x_rsf := x_rsf s; x_live := x_live s; x_rs := x_rs s; x_rq := x_rq s; x_qb := x_qb s; x_pb := x_pb s; x_tun := x_tun s; x_cr := v; x_ve := x_ve s; x_ws := x_ws s |}.
+Definition sx_ve (v : bool) (s : ast) : ast := {| x_pc := x_pc s; x_cs := x_cs s; x_ss := x_ss s; x_m := x_m s; x_up := x_up s; x_ab := x_ab s; x_rqe := x_rqe s; x_rqf := x_rqf s; x_rsf := x_rsf s; x_live := x_live s; x_rs := x_rs s; x_rq := x_rq s; x_qb := x_qb s; x_pb := x_pb s; x_tun := x_tun s; x_cr := x_cr s; x_ve := v; x_ws := x_ws s |}.
+Definition sx_ws (v : bool) (s : ast) : ast := {| x_pc := x_pc s; x_cs := x_cs s; x_ss := x_ss s; x_m := x_m s; x_up := x_up s; x_ab := x_ab s; x_rqe := x_rqe s; x_rqf := x_rqf s; x_rsf := x_rsf s; x_live := x_live s; x_rs := x_rs s; x_rq := x_rq s; x_qb := x_qb s; x_pb := x_pb s; x_tun := x_tun s; x_cr := x_cr s; x_ve := x_ve s; x_ws := v |}.
 (* ---------- abstract interpreter (set-valued) *)
 Definition a_crash (a : ast) : list ast := [sx_cr true a].
 Definition a_emit_hook (h : hook) (t : pctag) (a : ast) : ast := sx_pc t (sx_m (mon_step (x_m a) h) a).
@@ -59,9 +59,9 @@ Definition a_finish_killed (a : ast) : ast := sx_cs SErrored (sx_ss SErrored (sx
 Definition a_check_killed (emit : bool) (a : ast) : list (option ast) :=
   [None; Some (if emit then a_emit_hook HkError PKilled a else a_finish_killed a)].
 Definition a_flow_done (a : ast) : list ast :=
-  let a1 := sx_live false a in [sx_cr true a1; sx_tun true a1; a1].
+  let a1 := if x_ws a then a else sx_live false a in [sx_cr true a1; sx_tun true a1; a1].
 Definition a_send_response (already : bool) (a : ast) : list ast :=
-  [sx_cr true a; a_emit_hook HkResponse (PResponse already) a].
+  [sx_cr true a; a_emit_hook HkResponse (PResponse already) a; a_emit_hook HkResponse (PResponse already) (sx_ws true a)].
 Definition a_send_response_cont (a : ast) : list ast :=
   let a1 := sx_ss SDone a in
   a_finish_killed a1 :: sx_cr true a1 :: (if sst_eqb (x_cs a1) SDone then a_flow_done a1 else [a1]).
@@ -165,7 +165,7 @@ Definition a_note_event (e : aev) (a : ast) : ast :=
                  || (aev_req_side e && x_rqe a)
                  || match e with AReqData false | ARespData false => true | _ => false end in
   let a1 := if bad_env then sx_ve true a else a in
-  let a2 := if negb (aev_req_side e) && x_ab a then sx_vg true a1 else a1 in
+  let a2 := a1 in
   match e with
   | AReqErr => sx_rqf true (sx_rqe true a2)
   | AReqEOM => sx_rqf true a2
